@@ -2495,6 +2495,65 @@ theorem window_exact_append_only (v : Variant) (hv : v.fixDefrag = true) (hat : 
   rw [hrun, visible_store, visible_store (some w) (runI [] (annotate c0 bs)), List.map_append, List.map_append,
     runS_visible_eq_runI w (annotate c0 bs) [] [] t.seq t.pos rfl hnb]
 
+/-- operations of append-only use: forward passes, SetCausal, reserve passes (no CopyPrefix, no Remove) -/
+def AppendOnly : HOp → Prop
+  | .fwd _ _ => True
+  | .sc _ => True
+  | .rsv _ => True
+  | _ => False
+
+/-- the forward passes of a history with the cache's answers (SetCausal / reserve passes store nothing) -/
+def annotateOps : Cache → List HOp → List Pass
+  | _, [] => []
+  | c, op :: rest =>
+    match op with
+    | .fwd b ids => (b, ids, accepted c (.fwd b ids)) :: annotateOps (stepH c op) rest
+    | _ => annotateOps (stepH c op) rest
+
+theorem runT_appendOnly (w : Int) (c : Cache) (s : Spec) (ops : List HOp) (h : ∀ op ∈ ops, AppendOnly op) :
+    runT (some w) c s ops = runS w s (annotateOps c ops) := by
+  induction ops generalizing c s with
+  | nil => rfl
+  | cons op rest ih =>
+    have hop := h op (by simp)
+    have ih' := fun c s => ih c s (fun o ho => h o (by simp [ho]))
+    cases op with
+    | fwd b ids =>
+      simp only [runT, annotateOps, runS]
+      rw [ih']
+      rfl
+    | cp src dst len => exact absurd hop (by simp [AppendOnly])
+    | rm seq b e => exact absurd hop (by simp [AppendOnly])
+    | sc ex =>
+      simp only [runT, annotateOps]
+      rw [ih']
+      rfl
+    | rsv b =>
+      simp only [runT, annotateOps]
+      rw [ih']
+      rfl
+
+/-- **"Nothing missing" under append-only use, with SetCausal and reserve passes in the history** (repaired
+    tree): the generalisation of `window_exact_append_only` from forward-only histories to every history without
+    CopyPrefix / Remove. -/
+theorem window_exact_append_only_ops (v : Variant) (hv : v.fixDefrag = true) (hat : v.atomicRemove = true) (w : Int)
+    (maxSeq capacity maxBatch cachePad batchPad : Nat) (hs : Bool) (ops : List HOp)
+    (b : List Tok) (ids : List Nat)
+    (hsz : (Causal.init v (some w) maxSeq capacity maxBatch cachePad batchPad hs).cells.length ≤ maxInt)
+    (hids : ids.length = b.length) (hwf : ∀ op ∈ ops, WellFormed op) (hao : ∀ op ∈ ops, AppendOnly op) :
+    let c0 := Causal.init v (some w) maxSeq capacity maxBatch cachePad batchPad hs
+    let c := ops.foldl stepH c0
+    (startForward c b).2 = .ok →
+    ∀ t ∈ b, NotBelow (annotateOps c0 ops) t.seq t.pos →
+      ((exposedEntries (put (startForward c b).1 ids) t).map key).Perm
+        ((visible (some w) (KV.store (runI [] (annotateOps c0 ops)) (b.zip ids)) t.seq t.pos).map key) := by
+  intro c0 c hok t ht hnb
+  have h1 := history_exposes_spec_total v hv hat (some w) maxSeq capacity maxBatch cachePad batchPad hs ops b ids
+    hsz hids hwf hok t ht
+  refine h1.trans ?_
+  rw [runT_appendOnly w c0 [] ops hao, visible_store, visible_store (some w) (runI [] (annotateOps c0 ops)),
+    List.map_append, List.map_append, runS_visible_eq_runI w (annotateOps c0 ops) [] [] t.seq t.pos rfl hnb]
+
 /-! ### `CanResume` (repaired, F15b) is sound: an approved position has its whole window present -/
 
 theorem nodup_range_length (n : Nat) (lo : Int) (L : List Int) (hnd : L.Nodup)
